@@ -99,7 +99,7 @@ def evaluate(world, run):
         # 1. termination
         if ex["timed_out"]:
             viol("C09", "terminates", "wall-clock-timeout", ex,
-                 f"killed after {ex['wall_s']} s wall-clock (limit {step.get('timeout', DEFAULT_TIMEOUT)} s)")
+                 f"killed after {ex['wall_s']} s wall-clock (limit {ex.get('limit_s', step.get('timeout', DEFAULT_TIMEOUT))} s)")
             continue
         if not relaxed:
             # 2. clean exit
